@@ -1,3 +1,15 @@
+"""C19 - sight click counts are the angular correction divided by the click value."""
 LEVEL = 'proof'
-EXPLANATION = 'C19'
+EXPLANATION = ('Sight.get_adjustment and get_trajectory_adjustment under contract for the three focal planes x display units of '
+               'the click sizes (mil, inch/100yd, MOA, cm/100m) x display units of the calibration distance (yard, metre), any '
+               'magnification, distance and correction: clicks x effective click = correction, separately for elevation and '
+               'windage (so the count is linear in the correction and keeps its sign), with the effective click of the '
+               'statement written as a specification function: nominal (FFP), nominal x calibration / target distance x '
+               'magnification (SFP), nominal / magnification (LWIR) - in magnitudes, whatever the display units (the swapped '
+               'SFP steps repaired in 5a6f70e and the display-unit leak repaired in 75441a9 failed these clauses). '
+               'Sight.__init__: ValueError exactly for an unknown focal plane or SFP without calibration distance, TypeError '
+               'exactly for missing or non-positive click sizes, otherwise the fields are stored; and, for whatever spellings a '
+               'version of the constructor accepts, the state invariant "an existing sight has a known focal plane and an '
+               'existing SFP sight has a positive calibration distance".')
+NOT_DECIDED = ['click sizes larger than one turn are wrapped by Angular.to_raw (precondition: within a turn)']
 EXTRA = []
